@@ -1,3 +1,4 @@
+import Splipy.Lemmas.C10Cummax
 import Splipy.Lemmas.C10Tensor
 import Splipy.Lemmas.C10Affine
 import Splipy.Lemmas.C10Ctor
@@ -61,7 +62,7 @@ theorem makePeriodicKnots_size (b : Basis K) (k : ℕ) (hk : k + 2 ≤ b.order)
 
 /-- The basis a successful `Basis.makePeriodic` returns. -/
 theorem makePeriodic_ok {b nb : Basis K} {tol : K} {k : ℕ} (hs : b.makePeriodic tol k = .ok nb) :
-    nb = { order := b.order, knots := b.makePeriodicKnots k, periodic := k } := by
+    nb = { order := b.order, knots := cummax (b.makePeriodicKnots k), periodic := k } := by
   rw [makePeriodic_eq] at hs
   rcases mk?_cases b.order (b.makePeriodicKnots k) (k : Int) tol with h | h
   · rw [h] at hs; cases hs
@@ -76,7 +77,7 @@ theorem makePeriodic_numFunctions {b nb : Basis K} {tol : K} {k : ℕ} (hs : b.m
     nb.numFunctions = b.knots.size - b.order - (k + 1) := by
   rw [makePeriodic_ok hs]
   unfold numFunctions
-  simp only [makePeriodicKnots_size b k hk hlong]
+  simp only [size_cummax, makePeriodicKnots_size b k hk hlong]
   omega
 
 end Basis
@@ -854,12 +855,20 @@ theorem appendMerge_wf {a c r : Obj K} {tol : K} (ha : a.WellFormed) (hc : c.Wel
       simp only [] at hm
       rw [hm] at hs
       cases hs
-    · unfold Basis.appendKnotsArr at hm
+    · have hwf := appendCore_wf ha hc ha1 hc1 hnc hdim hrat hp hpa hpc
+      have hval : (Basis.appendBasis (a.basis 0) (c.basis 0)).Valid := by
+        have := hwf.valid 0 (by simp)
+        simpa [Obj.basis] using this
+      have hcm : Basis.cummax (Basis.appendKnotsArr (a.basis 0).order (a.basis 0).knots (c.basis 0).knots)
+          = Basis.appendKnotsArr (a.basis 0).order (a.basis 0).knots (c.basis 0).knots :=
+        Basis.cummax_knots_of_sorted (Basis.appendBasis (a.basis 0) (c.basis 0)) hval.sorted
+      rw [hcm] at hm
+      unfold Basis.appendKnotsArr at hm
       simp only [] at hm
       rw [hm] at hs
       simp only [Except.ok.injEq, Option.some.injEq] at hs
       rw [← hs]
-      exact appendCore_wf ha hc ha1 hc1 hnc hdim hrat hp hpa hpc
+      exact hwf
   · rw [if_pos hp] at hs
     cases hs
 
